@@ -166,11 +166,12 @@ const maxDepth = 400
 
 func (ex *Exec) callFunction(fn *ssa.Function, args []Value, env []Value, site ssa.Instruction) Value {
 	// engine intrinsics / harness stubs
-	if h := ex.w.lookupIntrinsic(fn); h != nil {
-		return h(ex, fn, args)
-	}
+	// a harness stub overrides an engine intrinsic of the same function (e.g. uninterpreted sha256)
 	if st := ex.w.lookupStub(fn); st != nil {
 		return ex.callFunction(st, args, nil, site)
+	}
+	if h := ex.w.lookupIntrinsic(fn); h != nil {
+		return h(ex, fn, args)
 	}
 	if fn.Blocks == nil {
 		ex.unsupported("external function without body: " + fn.String())
